@@ -97,6 +97,8 @@ class Engine(Interp):
                     return (h, cw(v[1]), pos(v[2]))
                 if h == 'boolc':
                     return ('boolc', ccond(v[1]))
+                if h == 'aff' and len(v) == 3:
+                    return ('aff', tuple(sorted(((anyterm(t), c) for t, c in v[1]), key=lambda x: x[0].name)), v[2])
                 return tuple(cw(x) for x in v)
             return v
 
